@@ -251,62 +251,49 @@ def statuses(m):
 
 
 def diagnose(prog, b, m, both):
-    """-> (signature, text).  `both(prog)` runs a program on both sides."""
-    if b.startswith("CRASH"):
-        k = len(prog)
-        # the option reached: shortest prefix that still crashes
-        for n in range(1, len(prog) + 1):
-            bb, mm = both(prog[:n])
-            if bb.startswith("CRASH"):
-                k = n
-                break
-        o = prog[k - 1]
-        kind = re.sub(r"[^A-Za-z0-9-]+", "-", b[6:60]).strip("-")
-        return ("fmt:%s:crash:%s" % (o[0], kind), "option %d (%s) crashes the program: %s" % (k, " ".join(o), b),
-                "crash", tuple(o))
+    """-> (signature, text, kind, option at fault).  `both(prog)` runs a program on both sides.
+    The option at fault is the last one of the shortest prefix after which the two sides can be
+    told apart (exit status, or the stack printed by the observer -Q -o-)."""
+    n = len(prog)
     if m == "USAGE":
         return ("fmt:usage", "malformed argument: expected a usage error (255, nothing printed), got %s" % b,
                 "usage", ())
-    bs = int(b.split(":")[0])
-    ms = statuses(m)
-    n = len(prog)
-    if bs not in ms:
-        if bs != 0 and bs <= n and all(x == 0 or x > bs for x in ms):
-            o = prog[bs - 1]
-            kind = "unexpected-failure"
-            text = "option %d (%s) fails although the manual defines it to succeed here" % (bs, " ".join(o))
-        elif all(x != 0 and (bs == 0 or x < bs) for x in ms):
-            k = ms[0]
-            o = prog[k - 1]
-            kind = "failure-ignored"
-            text = "option %d (%s) must fail according to the manual (wrong type / missing operand / out of range) but the program went on (exit status %d)" % (k, " ".join(o), bs)
-        else:
-            k = bs if 0 < bs <= n else (ms[0] if ms[0] else n)
-            o = prog[max(0, min(k, n) - 1)]
-            kind = "wrong-exit-status"
-            text = "exit status %d is not one of the allowed %s" % (bs, ms)
-        ac = argclass(o)
-        sig = NICE.get((o[0], kind, ac), "fmt:%s:%s:%s" % (o[0], kind, ac))
-        return sig, text, kind, tuple(o)
-    # same status, different output: find the first option after which the observable state differs
-    culprit = None
-    for k in range(1, n + 1):
-        pre = list(prog[:k])
-        if pre[-1][0] in ("-o", "-f", "-u"):
+    k, kb, km = n, b, m
+    for j in range(1, n + 1):
+        pre = list(prog[:j])
+        if j == n:
+            bb, mm = b, m
+        elif pre[-1][0] in ("-o", "-f", "-u"):
             bb, mm = both(pre)
         else:
             bb, mm = both(pre + OBSERVER)
         if not agrees(bb, mm):
-            culprit = k
+            k, kb, km = j, bb, mm
             break
-    if culprit is None:
-        culprit = n
-    o = prog[culprit - 1]
+    o = prog[k - 1]
     ac = argclass(o)
-    kind = "output-differs"
+    if kb.startswith("CRASH"):
+        kind = "crash"
+        what = re.sub(r"[^A-Za-z0-9-]+", "-", kb[6:60]).strip("-")
+        return ("fmt:%s:crash:%s" % (o[0], what), "option %d (%s) crashes the program: %s" % (k, " ".join(o), kb),
+                kind, tuple(o))
+    bs = int(kb.split(":")[0])
+    ms = statuses(km)
+    if bs in ms:
+        kind = "output-differs"
+        text = "after option %d (%s) the values on the stack / the bytes written differ from what the manual defines" % (k, " ".join(o))
+    elif bs == k and all(x == 0 or x > k for x in ms):
+        kind = "unexpected-failure"
+        text = "option %d (%s) fails although the manual defines it to succeed here" % (k, " ".join(o))
+    elif ms == [k] or (all(x != 0 for x in ms) and max(ms) <= k and (bs == 0 or bs > k)):
+        kind = "failure-ignored"
+        text = ("option %d (%s) must fail according to the manual (wrong type / missing operand / out of range) "
+                "but the program went on (exit status %d)" % (k, " ".join(o), bs))
+    else:
+        kind = "wrong-exit-status"
+        text = "at option %d (%s): exit status %d is not one of the allowed %s" % (k, " ".join(o), bs, ms)
     sig = NICE.get((o[0], kind, ac), "fmt:%s:%s:%s" % (o[0], kind, ac))
-    return (sig, "after option %d (%s) the values on the stack / the bytes written differ from what the manual defines"
-            % (culprit, " ".join(o)), kind, tuple(o))
+    return sig, text, kind, tuple(o)
 
 
 def status_kind(prog, b, m):
@@ -413,11 +400,10 @@ def correspond(ctx):
                 continue
             # already explained by a minimal program found before?
             qk, qo = quick_kind(p, impl[i], model[i])
-            if qk == "output-differs":
-                if any(k == qk and subseq(q, p) for q, (_, k, _) in seen_min.items()):
-                    continue
-            elif any(k == qk and o == qo for (_, k, o) in seen_min.values()):
+            if any(k == qk and o == qo for (_, k, o) in seen_min.values()):
                 continue
+            if any(k == "output-differs" and o in p for (_, k, o) in seen_min.values()):
+                continue        # contains an option instance already known to leave a wrong value behind
             if budget <= 0:
                 continue
             budget -= 1
